@@ -216,6 +216,17 @@ def scan_scenarios(tier):
     e256 = [3 * i for i in range(1, 53)]
     add("seek_fwd_vs_edit_i256", e256, ["ff100h2"], ["i4"])
     add("seek_rev_vs_edit_i256", e256, ["fr100h2"], ["r153"])
+    # scanners on the node classes that are indexed by the key byte (inode_48 / inode_256): in-place edits,
+    # growth inode_16 -> inode_48 and shrink inode_48 -> inode_16 of the node under the scanner (halting scans
+    # keep the executions short)
+    add("scan_fwd_i48_vs_rem", e48, ["sfh4"], ["r3", "r9"])
+    add("scan_rev_i48_vs_ins", e48, ["srh4"], ["i61", "i58"])
+    add("scan_fwd_i48_vs_ins_ahead", e48, ["sfh5"], ["i10"])
+    add("scan_fwd_grow_i16_i48", rng(16), ["sfh6"], ["i17"])
+    add("scan_rev_shrink_i48_i16", rng(17), ["srh6"], ["r17"])
+    add("scan_fwd_shrink_i48_i16", rng(17), ["sfh6", "ff9h2"], ["r2"])
+    add("scan_fwd_i256_vs_rem", e256, ["sfh4"], ["r3", "r9"])
+    add("scan_rev_shrink_i256_i48", rng(49), ["srh5"], ["r49"])
     # two writer commits inside one next()/prior() of the scanner (seed c09e): the first touches a node on the
     # scanner's stack (the fast path fails, the re-seek finds the current key), the second removes the current key
     # before the step after the re-seek is validated.  As one two-operation writer (three preemptions: reached by
@@ -250,7 +261,8 @@ def fine_grained(sc):
     n = sc.name
     return (n.startswith("seek_") or n.startswith("reseek_vs_inplace") or "_inplace_" in n
             or (n.startswith("cls_") and (n.endswith("_add_add") or n.endswith("_add_rem") or n.endswith("_get_vs_edit")))
-            or n in ("i4_3_rem_rem", "i4_2_rem_ins", "i16_min_shrink_ins", "i4_full_grow_get", "scan_from_absent_bound"))
+            or n in ("i4_3_rem_rem", "i4_2_rem_ins", "i16_min_shrink_ins", "i4_full_grow_get", "scan_from_absent_bound",
+                     "scan_fwd_i48_vs_rem", "scan_rev_i48_vs_ins", "scan_fwd_i48_vs_ins_ahead", "scan_fwd_i256_vs_rem"))
 
 
 def write_chunks(scs, d, nchunks):
